@@ -14,7 +14,11 @@ CFG = {'streams': [{'name': 'C20',
                             'one of the three citations path:row+1:col+1: (statement, stanza, matched node) or the text of a cited line that '
                             'exists in the given DSL/source text (both judged on the real text alone); 61 the pretty text differs from '
                             "render_pretty of the walked chain; 62 the plain Display differs from render_plain; 63 the model's own text does "
-                            'not show a context (excluded by the theorems); 64 the harness could not read a Context from its Debug rendering',
+                            'not show a context (excluded by the theorems); 64 the harness could not read a Context from its Debug rendering; 65 the '
+                            "chain obtained by chain_of_error (Model/ErrChain.v) from the MODEL's error of the same run (node kind/position from "
+                            'the recorded tree; statement, cause and Context::Other texts taken from the real error) is not the real chain: '
+                            'number and order of entries, one/two statement contexts per entry, locations, node position and kind; 2 / 5 / 7 '
+                            'the model run succeeds / panics / runs out of fuel',
               'model_only_codes': [61, 62, 64]}],
  'rule': 'C20r: the failing runs of C20 (30% re-laid out: tabs, statements behind non-ASCII literals), rendered with paths containing spaces, '
          'non-ASCII and colons, and with the real DSL/source text (70%), a truncated one (rows missing), a CRLF copy or an unrelated text; '
@@ -50,7 +54,13 @@ CFG = {'streams': [{'name': 'C20',
                 "matched node (render_pretty_cites) and the text of the cited DSL/source lines whenever the given texts have these "
                 "rows (render_pretty_shows_lines; otherwise the excerpt is the citation and <missing source>: excerpt_missing_source); "
                 "entries come in chain order numbered 0..n, the innermost error last (render_pretty_entries, render_entry_head). "
-                "Stream C20r walks the real chain of failing runs and compares both texts character by character with the model.",
+                "Stream C20r walks the real chain of failing runs and compares both texts character by character with the model. "
+                "END TO END: chain_of_error maps the error VALUE of the execution model to the rendered chain (texts the model lacks are "
+                "arbitrary function arguments); error_rendering_cites_all: every statement context of a model error is cited and its "
+                "lines shown; strict_error_rendering_cites / _shows_lines: the text for the error of a strict run cites a statement of "
+                "the stanza of an executed block, that stanza and the block's full-match node position; lazy_error_rendering_cites / "
+                "_shows_lines: likewise for each (valid) context of a lazy run's error. C20r also checks that chain_of_error of the "
+                "model's error of each run is the real chain (code 65).",
  'partial': ['the KIND and source position recorded for the matched node are compared by the stream only (the model of the execution '
              'identifies syntax nodes by index); the RENDERING of a recorded chain is modelled (Model/ErrRender.v, theorems '
              'render_pretty_*) and compared character by character by stream C20r'],
